@@ -11,7 +11,13 @@ from . import tables as T
 
 def _valid(prog):
     try:
-        interp.run_pandas(prog)
+        pv = interp.run_pandas(prog)
+        fl = interp.static_flags(prog, pv)
+        for st in prog["steps"]:
+            if not O.precondition(st["op"], [(pv[i], fl[i]) for i in st["in"]], st.get("args", {})):
+                return False
+            if not fl[st["id"]].defined and st["id"] not in prog["out"]:
+                return False
         for t in prog["tables"]:
             lay = t.get("layout") or {}
             if "cuts" in lay and sum(lay["cuts"]) != len(t["rows"]):
